@@ -22,7 +22,8 @@ func TestMain(m *testing.M) {
 		"1..5 subscriptions (before / concurrently with / after a given Publish; per message a behaviour: ack, nack k times then ack, slow ack, edit metadata then ack/nack, hold, publish to a side topic first, cancel), "+
 		"schedule noise and forced overlaps at the gochannel hook points, GOMAXPROCS varied. Oracle = invariants over the recorded history: every message whose Publish started after Subscribe returned reaches that subscription (no foreign topic), "+
 		"redelivery only after a Nack and after every Nack until Ack, every delivery is a distinct copy equal to the published snapshot (edits and settlements never leak), delivery context derives from the Subscribe context, is live on receipt and cancelled after the Ack. "+
-		"Non-trivial: >=2 subscriptions on one topic and >=1 Nack or metadata edit happened. Distinct by canonical program encoding.")
+		"Non-trivial: >=2 subscriptions on one topic and >=1 Nack or metadata edit happened. Distinct by canonical program encoding."+
+		" 2 of 7 published originals were acked or nacked before Publish (forwarded messages): deliveries are copies with a life of their own, the original's state stays as it was.")
 	lib.Extra("assumptions", []string{
 		"no cross-publisher order, no order in persistent replay; a message whose Publish overlaps the Subscribe may or may not be delivered (non-persistent); cancelled subscriptions owe nothing",
 		"excluded by construction (known finding C05-F1): blocking mode with a subscriber that publishes before acking while a Subscribe/cancel may wait for the write lock",
